@@ -33,6 +33,8 @@ use serde_json::{json, Value};
 use std::path::{Path, PathBuf};
 
 const NAME_POOLS: &[&[&str]] = &[
+    // dotted stems: the sample name is the file stem minus .fa/.fasta, NOT the part before the first dot
+    &["HG002.1", "HG002.2", "asm.v1", "asm.v2", "x.y.z", "ref", "HG002"],
     &["a", "ab", "abc", "abd", "b", "ba", "c"],
     &["s1", "s10", "s11", "s2", "s20", "t1"],
     &["HG002", "HG0020", "HG003", "HG01", "NA12878", "NA1", "X"],
@@ -74,8 +76,16 @@ fn gen_set(seed: u64, idx: u64) -> (SampleSet, bool, Vec<String>, Value) {
         descriptions: rng.chance(1, 3),
     };
     let o = GenOpts { len_hi: o.len_hi.max(o.len_lo + 1), ..o };
+    // archive 4: many similar samples, small segments — LZ groups with more than 50 distinct deltas
+    // (>= 2 packs per delta stream), so that ONE getset invocation crosses pack boundaries
+    let many = idx % 5 == 4;
+    let o = if many {
+        GenOpts { n_samples: rng.range(55, 60) as usize, n_contigs: 1, len_lo: 300, len_hi: 600, div_per_mille: 30, structural: false, short_contigs: false, descriptions: false, ..o }
+    } else {
+        o
+    };
     let mut set = genomes::gen_sample_set(&mut rng, &o);
-    if !single_file {
+    if !single_file && !many {
         // rename: prefix-related names; the file stem is the sample name
         let pool = NAME_POOLS[(idx as usize / 3) % NAME_POOLS.len()];
         set.samples.truncate(pool.len()); // one file per name
@@ -91,7 +101,7 @@ fn gen_set(seed: u64, idx: u64) -> (SampleSet, bool, Vec<String>, Value) {
             s.name = new;
         }
     }
-    let s_size = *rng.pick(&[60usize, 200, 1000, 60000]);
+    let s_size = if many { 60 } else { *rng.pick(&[60usize, 200, 1000, 60000]) };
     let threads = *rng.pick(&[1usize, 2, 4]);
     let args = vec![
         "-k".to_string(),
